@@ -118,6 +118,8 @@ class iCVI_CH:
             A dictionary containing the updated values after the sample is added.
 
         """
+        # own floating-point copy: the sample is stored (mu, v) and subtracted from
+        x = np.array(x, dtype=float)
         newP = {"x": x, "label": label}  # New Parameters
         newP["n_samples"] = self.n_samples + 1
         if self.mu.size == 0:  # mu will be size 0 if no samples in dataset.
@@ -232,6 +234,7 @@ class iCVI_CH:
             A dictionary containing the updated values after switching the label.
 
         """
+        x = np.array(x, dtype=float)
         if label_new == label_old:
             return {
                 "n_samples": self.n_samples,
